@@ -266,11 +266,11 @@ fn main() {
         }
     };
 
-    #[allow(clippy::await_holding_lock)]
     let interrupt_task = async move {
         tokio::signal::ctrl_c().await.unwrap();
         shutdown.lock().unwrap().submit();
-        shutdown.lock().unwrap().completion().await
+        let completion = shutdown.lock().unwrap().completion();
+        completion.await
     };
 
     let exit_code = rt.block_on(async move {
